@@ -106,7 +106,9 @@ PROPS = {
                              rule='hist: all 1884 operation sequences of length <=3 over a 12-operation alphabet acting on the two latest handles (var, not, and, or, xor, exists, model, retain, mk_choice, clean, counting) in one environment, plus seeded random histories (100 x 100 operations; thorough 2000 x 300) over all public operations incl. fp, with operands drawn from recent and from old handles; after EVERY step: the step re-run in a fresh environment gives the identical result, every earlier handle re-serialises to its recorded text, every node reachable from every handle is pointer-identical to the unique table entry for its structure, both leaves present, every key equals its value. heap: random sequences of direct mk_choice / mk_const calls on earlier results: pointer-equality pattern and table size against the Heap model'),
                         bdd(['mixed'], exhaustive=False)]),
     'C14': dict(lint='c14', suites=[dict(suite='dot', parts=[], profile='release', exhaustive=True,
-                             rule='dotbdd: BDDGraph DOT text of all 256 functions over two variable triples x filters Any/True/False and of a stride of the 65536 four-variable functions (thorough: all), parsed back: every node id is replaced by the structure it roots through its T/F edges (a missing edge leads to the leaf the filter hides), node set and edge set compared with dot_nodes / dot_edges of the model, plus flags for an id declared twice, two ids rooting the same structure, an undeclared edge end; dotnamed: the same for evaluated random formulas over names needing escaping (quote, non-ASCII); dottree: SymbolicParseTree DOT text of 18 hand-picked formulas (every node kind, repeated sub-terms) and random formulas, read back as terms from labels and ordered edge labels: node set, edge set and the term rooted at the unique parent-less node compared with the parsed tree')]),
+                             rule='dotbdd: BDDGraph DOT text of all 256 functions over two variable triples x filters Any/True/False and of a stride of the 65536 four-variable functions (thorough: all), parsed back: every node id is replaced by the structure it roots through its T/F edges (a missing edge leads to the leaf the filter hides), node set and edge set compared with dot_nodes / dot_edges of the model, plus flags for an id declared twice, two ids rooting the same structure, an undeclared edge end; dotnamed: the same for evaluated random formulas over names needing escaping (quote, non-ASCII); dottree: SymbolicParseTree DOT text of 18 hand-picked formulas (every node kind, repeated sub-terms) and random formulas, read back as terms from labels and ordered edge labels: node set, edge set and the term rooted at the unique parent-less node compared with the parsed tree'),
+                        dict(suite='dot', parts=['files'], profile='release', bins='debug', exhaustive=False,
+                             rule='files: the rsbdd binary with --dot FILE --parsetree FILE (and --filter) on the 40 grid formulas x 3 filters and seeded random formulas over names needing escaping; both files read back and compared like dotnamed / dottree')]),
     'C15': dict(suites=[gen(['queens'])]),
     'C16': dict(suites=[gen(['clique'])]),
     'C17': dict(suites=[gen(['sudoku'])]),
